@@ -15,11 +15,17 @@ class Policy:
     """Bounds of the lazy exploration (part of every claim made with it)."""
 
     def __init__(self, max_array=4, max_map=2, max_text=2, text_mode="concrete",
-                 bytes_mode="opaque", max_bytes=2, max_depth=6, kinds=None):
+                 bytes_mode="opaque", max_bytes=2, max_depth=6, kinds=None,
+                 max_total_entries=None, max_total_items=None, max_nested_array=None,
+                 max_nested_map=None):
         self.max_array, self.max_map, self.max_text = max_array, max_map, max_text
         self.text_mode, self.bytes_mode, self.max_bytes = text_mode, bytes_mode, max_bytes
         self.max_depth = max_depth
         self.kinds = kinds or KINDS
+        # budgets over the whole input (sum over all maps / all arrays)
+        self.max_total_entries, self.max_total_items = max_total_entries, max_total_items
+        # arrays / maps below the root of the input
+        self.max_nested_array, self.max_nested_map = max_nested_array, max_nested_map
 
     def for_node(self, node):
         """Hook: harnesses subclass to vary bounds by position (node.path)."""
@@ -75,10 +81,22 @@ class InputNode:
             self.tag = ctx.fresh_bv(p + ".tag", 64)
             self.child = InputNode(p + ".tagged", self.policy, self.depth + 1)
         elif k == "Array":
-            n = ctx.choose(pol.max_array + 1, "len@" + p)
+            cap = pol.max_array
+            if self.depth >= 1 and pol.max_nested_array is not None:
+                cap = pol.max_nested_array
+            if pol.max_total_items is not None:
+                cap = max(0, min(cap, pol.max_total_items - ctx.side.get("items_used", 0)))
+            n = ctx.choose(cap + 1, "len@" + p)
+            ctx.side["items_used"] = ctx.side.get("items_used", 0) + n
             self.items = [InputNode("%s[%d]" % (p, i), self.policy, self.depth + 1) for i in range(n)]
         elif k == "Map":
-            n = ctx.choose(pol.max_map + 1, "len@" + p)
+            cap = pol.max_map
+            if self.depth >= 1 and pol.max_nested_map is not None:
+                cap = pol.max_nested_map
+            if pol.max_total_entries is not None:
+                cap = max(0, min(cap, pol.max_total_entries - ctx.side.get("entries_used", 0)))
+            n = ctx.choose(cap + 1, "len@" + p)
+            ctx.side["entries_used"] = ctx.side.get("entries_used", 0) + n
             self.entries = [(InputNode("%s{%d}k" % (p, i), self.policy, self.depth + 1),
                              InputNode("%s{%d}v" % (p, i), self.policy, self.depth + 1)) for i in range(n)]
         return k
